@@ -6,7 +6,7 @@ import ast
 from vlib.core import AnalysisError, Report
 from vlib.schema import dict_keys, returned_dicts, subscripted_keys, typeddict_keys
 from vlib.flow import parent_map
-from vlib.match import FI, X, atoms, atoms_via, calls, closure, facts, has_call, inlined_bodies2, nodes
+from vlib.match import FI, X, atoms, atoms_via, calls, closure, expand_use, facts, has_call, inlined_bodies2, nodes
 from vlib.srcindex import SourceIndex, attr_chain, const_str, unparse, walk_no_nested
 
 EXPLANATION = (
@@ -85,6 +85,12 @@ def run(rep: Report, tier: str) -> None:
 			lit = td.get('class', '')
 			r.check(repr(shape) in lit, f'{shape}:typeddict-discriminator', (SCHEMA, 1), f'TypedDict {tdmap[shape]} declares class: {lit}, serialize writes {shape!r}')
 
+	# every way out of deserialize hands back a symbol whose attrs were rebuilt from the row (a reference row's own attrs are its type arguments:
+	# `origin` names only the class that declares the type)
+	for ret in [n for n in walk_no_nested(d.node) if isinstance(n, ast.Return)]:
+		if ret.value is None:
+			continue
+		r.check(has_call(expand_use(d.node, ret.value), '_deserialize_attrs'), f'return-restores-attrs:{unparse(ret.value)[:40]}', (SER, ret.lineno), f'deserialize returns `{unparse(ret.value)[:80]}` without the attrs rebuilt from data[\'attrs\']: the restored symbol loses its type arguments (an imported `dict[str, list[int]]` variable comes back as `dict<T_Key, T_Value>`)', unparse(ret)[:120])
 	# field wiring (on the fully inlined bodies: every local stands for its defining expression)
 	rw = rep.rule('C14/field-wiring', 'each restored constructor field is fed from the key of the same name, and that key was written from the matching attribute; path fields use ModuleDSN.full_joined <-> parsed', floor=8)
 	sfi = FI(s)
